@@ -59,7 +59,12 @@ def c17(ctx):
                 a = vb.stmts(d[1])[d[2]]["rv"]["agg"]
                 if isinstance(a, dict) and "closure" in a:
                     opcl = F.fn(a["closure"])
-    if opcl is None:
+    loop_form = False
+    if opcl is None and not tf:
+        loop_form = _folder_loop_form(ctx, vb, T)
+    if loop_form:
+        pass
+    elif opcl is None:
         rep.fail("C17.R1", "anchor::closure", "the closure handed to try_fold in the folder was not found (fold shape not recognised)", vb.loc())
     else:
         I = kind.Interp(F)
@@ -148,9 +153,9 @@ def c17(ctx):
                 ok = got == {"Err"}
                 rep.ob("C17.R1", "unary::Not", ok, "" if ok else "folder yields %s for `not`" % sorted(got), vu.loc(), how="Err")
     # ---- R2 fold shape
-    ok = len(tf) == 1
+    ok = len(tf) == 1 or loop_form
     why = "" if ok else "expected one try_fold in the folder's visit_binary_expression, found %d" % len(tf)
-    if ok:
+    if ok and not loop_form:
         bi, t = tf[0]
         lhs_ok = any(d[0] == "call" and vb.term(d[1])["callee"].get("name") == "visit_expression" and
                      any(pp[:1] == ("lhs",) for dd, pp in origins(vb, vb.term(d[1])["args"][1])) for d, _ in kind_deep(vb, t["args"][1]))
@@ -167,7 +172,7 @@ def c17(ctx):
             for b2, t2 in vb.calls():
                 if t2["callee"].get("name") in ("add", "sub", "mul", "div") and "indirect" not in t2["callee"]:
                     ok, why = False, "visit_binary_expression combines values outside the fold"
-    rep.ob("C17.R2", "fold-shape", ok, why, vb.loc(), how="once(first).chain(rest).map(fold).try_fold(lhs, op)")
+    rep.ob("C17.R2", "fold-shape", ok, why, vb.loc(), how="once(first).chain(rest).map(fold).try_fold(lhs, op)" if not loop_form else "explicit loop over once(first).chain(rest): runs computed by KIND (see C17.R1 operator::*)")
     for owner in (NCF, SCF):
         vl = find_method(F, VE, "visit_expression_list", owner)
         short = owner.rsplit("::", 1)[-1]
@@ -238,3 +243,80 @@ def c17(ctx):
             if fn is not None:
                 rep.fail("C17.R3", "dispatcher-overridden::%s::%s" % (short, name), "%s overrides the dispatcher %s: the per-node Err methods may be bypassed" % (short, name), fn.loc())
     rep.floor("C17.R3", n, 14, "state-reading node methods")
+
+
+def _folder_loop_form(ctx, vb, T):
+    """the folder's binary fold written as an explicit loop: KIND interprets the whole method per operator, with the folding of an operand
+    (visit_expression) yielding Ok(v_k) / Err and the operand iterator yielding an element or the end; every run must return Err as soon as
+    an operand does not fold (or the operator is not arithmetic), and otherwise the left fold, in visiting order, of the interpreter's
+    (Number, Number) term.  Returns False when the method has no such loop (the caller then reports the unrecognised shape)."""
+    F, rep = ctx.F, ctx.rep
+    draws = [(bi, t) for bi, t in vb.calls() if t["callee"].get("name") == "next" and t["args"]]
+    visits = [(bi, t) for bi, t in vb.calls() if t["callee"].get("name") == "visit_expression"]
+    if len(draws) != 1 or len(visits) < 2:
+        return False
+    names = {vb.term(d[1])["callee"].get("name") for d, _ in kind_deep(vb, draws[0][1]["args"][0]) if d[0] == "call"}
+    if not {"once", "chain"} <= names or names & {"rev", "skip", "filter", "step_by", "skip_while", "take"}:
+        rep.ob("C17.R2", "fold-sequence", False, "the folded sequence is not once(first).chain(rest) in order (%s)" % sorted(x for x in names if x), vb.loc(), how="once(first).chain(rest)")
+        return True
+    counter = [0]
+    OPT = "std::option::Option"
+
+    def m_visit(I_, f, st, t, args, depth):
+        counter[0] += 1
+        k = counter[0]
+        yield E(RES, "Ok", E(NC, "NumericConstant", ("sym", "v%d" % k))), None, ((("visit", k), "ok"),)
+        yield E(RES, "Err", ("sym", "e")), None, ((("visit", k), "err"),)
+
+    def m_next(I_, f, st, t, args, depth):
+        counter[0] += 1
+        yield E(OPT, "Some", ("sym", "operand%d" % counter[0])), None, ((("draw", counter[0]), "some"),)
+        yield E(OPT, "None"), None, ((("draw", counter[0]), "none"),)
+    cells = {}
+    for op, m in (("Plus", "plus"), ("Minus", "subtract"), ("Multiply", "multiply"), ("Divide", "divide")):
+        fn = T.fn(m)
+        raw = {kt.term(o.ret) for o in T.I.run(fn, [kt.mk("Number", "self"), kt.mk("Number", "other")])} if fn else set()
+        cells[op] = sorted(raw)[0] if len(raw) == 1 else None
+    rep.exhaustive["folder_operator_map"] = True
+    for v in F.adts[BO]["variants"]:
+        op = v["name"]
+        counter[0] = 0
+        I = kind.Interp(F, models={"analysis::visit::VisitExpr::visit_expression": m_visit, "std::iter::Iterator::next": m_next})
+        bad = None
+        n_runs = 0
+        for o in I.run(vb, [("sym", "self"), E(BE, "BinaryExpression", E(BO, op), ("sym", "lhs"), ("sym", "rhs"))]):
+            n_runs += 1
+            seq = [(c_, tk) for c_, tk in o.conds if isinstance(c_, tuple) and c_ and c_[0] in ("visit", "draw")]
+            vals = ["v%d" % c_[1] for c_, tk in seq if c_[0] == "visit" and tk == "ok"]
+            erred = any(c_[0] == "visit" and tk == "err" for c_, tk in seq)
+            drew = any(c_[0] == "draw" and tk == "some" for c_, tk in seq)
+            r = o.ret
+            is_err = is_e(r, RES) and r[2] == "Err"
+            num = kt.term(r[3][0][3][0]) if is_e(r, RES) and r[2] == "Ok" and r[3] and is_e(r[3][0], NC) else None
+            if erred:
+                if not is_err:
+                    bad = "an operand that does not fold is turned into %s" % kt.term(r)
+                continue
+            if op not in cells:
+                if drew and not is_err:
+                    bad = "the folder yields %s for %s (must not report a number)" % (kt.term(r), op)
+                continue
+            if cells[op] is None:
+                bad = "the interpreter's (Number, Number) cell of %s is not a single term" % op
+                continue
+            if is_err:
+                bad = "the folder gives up on %s although every operand folded" % op
+                continue
+            want = vals[0] if vals else None
+            inner = cells[op]
+            inner = inner[2:-1] if inner.startswith("N(") and inner.endswith(")") else inner
+            for x in vals[1:]:
+                want = inner.replace("self.0", "\x00").replace("other.0", x).replace("\x00", want)
+            if num != want:
+                bad = "folder computes %s for %s over the operands %s; the interpreter folds them to %s" % (num, op, vals, want)
+        if I.incomplete:
+            bad = "the folder's visit_binary_expression could not be interpreted completely"
+        key = "operator::" + op
+        rep.ob("C17.R1", key, bad is None and n_runs > 0, bad or ("" if n_runs else "no run"), vb.loc(),
+               how="%d runs: Err as soon as an operand does not fold%s" % (n_runs, ", otherwise the interpreter's term folded left to right" if op in cells else "; never a number"))
+    return True
